@@ -64,6 +64,10 @@ RULE_LOOP = "closed loop: the real Drummer DB and the real scheduler against a s
 AGENT_SCENARIO = {"cmd": "agent", "driver": "AgentDriver", "sections": None, "eval_re": r"^case:", "timeout": 1500,
                   "args": {"quick": ["-reports", "0", "-dispatch", "0"], "thorough": ["-reports", "0", "-dispatch", "4"]}}
 
+# C11 also needs the report grid: a stray replica that is not reported (a pending one in particular) is never killed
+AGENT_C11 = {"cmd": "agent", "driver": "AgentDriver", "sections": None, "eval_re": r"^case:", "timeout": 1500,
+             "args": {"quick": ["-reports", "60", "-dispatch", "0"], "thorough": ["-reports", "300", "-dispatch", "4"]}}
+
 CHECKS = {
     "C01": {
         "lean": ["DrummerVerif.Props.C01", "DrummerVerif.Props.Witness", "DrummerVerif.Props.WitnessHeal"],
@@ -133,7 +137,10 @@ CHECKS = {
     "C06": {
         "lean": ["DrummerVerif.Props.C06"],
         "streams": [{"cmd": "porc", "driver": "PorcDriver", "sections": None, "eval_re": r"^case:",
-                     "args": {"quick": ["-n", "1500", "-exhaustive", "2"], "thorough": ["-n", "30000", "-exhaustive", "3"]}}],
+                     "args": {"quick": ["-n", "1500", "-exhaustive", "2"], "thorough": ["-n", "30000", "-exhaustive", "3"]}},
+                    # the checker as the checker binary uses it: a log is parsed, then checked (runs against a linearizable register must be accepted)
+                    {"cmd": "lcmrun", "driver": "JepsenDriver", "sections": None, "eval_re": r"^case:", "timeout": 1500,
+                     "args": {"quick": ["-n", "8", "-synth", "300"], "thorough": ["-n", "60", "-synth", "3000"]}}],
         "rule": "histories for the bundled register model: EVERY history with up to 2 (quick) / 3 (thorough) operations over reads (absent / 0 / 1 / unknown), writes (0,1; known / unknown) and CAS (all of {0,1}^2; ok / failed / unknown) in every well-formed interleaving of invocations and responses (exhaustive), plus random histories of up to 12 operations by up to 6 processes produced by a simulated register (two thirds linearizable by construction, one third with corrupted outcomes, one outcome in eight unknown); for every history: verdict and the full sequence of Step calls of the real CheckEvents are compared with the Lean model of checkSingle, the verdict with a brute-force search over all real-time-respecting orders (<= 9 operations), with the verdict after an injective renumbering and with two repeated runs; non-trivial = histories with >= 2 operations, distinct by content",
         "assumptions": ["with the default NoPartitionEvent there is one worker goroutine; without a timeout CheckEvents returns its result"],
     },
@@ -191,8 +198,8 @@ CHECKS = {
     },
     "C11": {
         "lean": ["DrummerVerif.Props.C11", "DrummerVerif.Props.Witness", "DrummerVerif.Props.WitnessDb"],
-        "streams": [dbstream("c11", 250, 4000, ["res", "img", "kill"]), dbstream("general", 150, 2000, ["res", "img", "kill"]),
-                    schedstream("general", 150, 2000, ["maintain"]), schedstream("repair", 200, 3000, ["maintain"]), loopstream(12, 300), AGENT_SCENARIO],
+        "streams": [dbstream("c11", 250, 4000, ["res", "img", "kill"], replicas=True), dbstream("general", 150, 2000, ["res", "img", "kill"]),
+                    schedstream("general", 150, 2000, ["maintain"]), schedstream("repair", 200, 3000, ["maintain"]), loopstream(12, 300), AGENT_C11],
         "rule": RULE_DB % "c11 (every second report of a non-member host carries a stray replica) and general",
         "assumptions": DB_ASSUME,
     },
